@@ -578,9 +578,12 @@ func (e *Exec) term(st *State, v ssa.Value) *Term {
 
 // ---------- package initialisation ----------
 
-var initDeny = []string{"unicode", "net", "net/http", "crypto/", "reflect", "runtime", "syscall", "internal/", "os", "log", "fmt", "time", "sync", "regexp", "mime", "golang.org/x/", "github.com/pion/webrtc", "github.com/pion/ice", "github.com/pion/dtls", "github.com/pion/sctp", "github.com/pion/srtp", "github.com/pion/interceptor", "github.com/gorilla", "vendor/", "encoding/json", "math/rand", "math/big", "compress/", "html", "text/", "bufio", "context", "github.com/pion/stun", "github.com/pion/turn", "github.com/pion/mdns", "github.com/pion/datachannel", "github.com/pion/transport", "github.com/pion/logging", "github.com/google", "github.com/at-wat", "github.com/wlynxg", "hash", "embed", "database", "archive", "debug", "go/", "testing", "flag", "expvar", "image", "plugin", "os/"}
+var initDeny = []string{"unicode", "net", "net/http", "crypto/", "reflect", "runtime", "syscall", "internal/", "log", "fmt", "time", "sync", "regexp", "mime", "golang.org/x/", "github.com/pion/webrtc", "github.com/pion/ice", "github.com/pion/dtls", "github.com/pion/sctp", "github.com/pion/srtp", "github.com/pion/interceptor", "github.com/gorilla", "vendor/", "encoding/json", "math/rand", "math/big", "compress/", "html", "text/", "bufio", "context", "github.com/pion/stun", "github.com/pion/turn", "github.com/pion/mdns", "github.com/pion/datachannel", "github.com/pion/transport", "github.com/pion/logging", "github.com/google", "github.com/at-wat", "github.com/wlynxg", "hash", "embed", "database", "archive", "debug", "go/", "testing", "flag", "expvar", "image", "plugin", "os/exec", "os/signal", "os/user"}
 
 func initDenied(path string) bool {
+	if path == "internal/oserror" || path == "io/fs" {
+		return false
+	}
 	for _, d := range initDeny {
 		if path == d || (strings.HasSuffix(d, "/") && strings.HasPrefix(path, d)) || strings.HasPrefix(path, d+"/") {
 			return true
@@ -1390,4 +1393,36 @@ func (e *Exec) prepareInit(st *State) {
 	if !w.snap.restore(e, st) {
 		w.snap.heap = nil
 	}
+}
+
+// runNestedStrict runs a small callee to completion inside the current
+// instruction (no tolerance; a fork inside it aborts the obligation).
+func (e *Exec) runNestedStrict(st *State, fv FuncV, args []Value) Value {
+	saved := e.curInstr
+	m := &Frame{marker: true}
+	st.frames = append(st.frames, m)
+	e.pushCall(st, fv, args, nil)
+	depth := len(st.frames) - 1
+	func() {
+		defer func() {
+			if r := recover(); r != nil {
+				switch r.(type) {
+				case forkSignal, forkValuesSignal, choiceSignal:
+					panic(e.abort("symbolic branch inside a nested helper call (%s)", fv.fn))
+				}
+				panic(r)
+			}
+		}()
+		steps := 0
+		for len(st.frames) > depth {
+			e.step(st)
+			steps++
+			if steps > 100000 {
+				panic(e.abort("nested helper call exceeded its step limit"))
+			}
+		}
+	}()
+	st.frames = st.frames[:len(st.frames)-1]
+	e.curInstr = saved
+	return m.result
 }
